@@ -496,17 +496,18 @@ class IndentAndNameChecker(BaseChecker):
                 return
 
         if self.force_next_indent > 0:
-            if current_indent != self.force_next_indent:
+            forced_indent = self.force_next_indent
+            if not stripped_line.endswith("\\"):
+                # the continuation ends with this line, no matter whether its indentation is right or wrong
+                self.force_next_indent = 0
+            if current_indent != forced_indent:
                 raise InputError(
                     self.path_in_idf,
                     line_number,
-                    "Indentation consists of {} spaces instead of {}".format(current_indent, self.force_next_indent),
-                    (" " * self.force_next_indent) + line.lstrip(),
+                    "Indentation consists of {} spaces instead of {}".format(current_indent, forced_indent),
+                    (" " * forced_indent) + line.lstrip(),
                 )
-            else:
-                if not stripped_line.endswith("\\"):
-                    self.force_next_indent = 0
-                return
+            return
 
         elif stripped_line.endswith("\\") and stripped_line.startswith(("config", "menuconfig", "choice")):
             raise InputError(
